@@ -544,17 +544,12 @@ func (p *parser) parseForExpression() ast.Expression {
 	}
 
 	p.nextToken()
+	// "for (x) in f() {": the brace opens the loop's block, not a block of
+	// the call (inside brackets of its own a call takes its block as ever)
+	outer := p.noCallBlock
 	p.noCallBlock = true
 	expression.Iterable = p.parseExpression(LOWEST)
-	p.noCallBlock = false
-
-	// "for (x) in f() {" : the loop's block was parsed as the block of the
-	// (last) call of the iterable expression
-	if ce := lastChainedCall(expression.Iterable); ce != nil && ce.Block != nil {
-		expression.Block = ce.Block
-		ce.Block = nil
-		return expression
-	}
+	p.noCallBlock = outer
 
 	if !p.expectPeek(token.LBRACE) {
 		return nil
@@ -643,6 +638,10 @@ func (p *parser) parseElseIfExpression() *ast.ElseIfExpression {
 func (p *parser) parseBlockStatement() *ast.BlockStatement {
 	block := &ast.BlockStatement{TokenAble: ast.TokenAble{Token: p.curToken}}
 	block.Statements = []ast.Statement{}
+
+	// the statements of a block are not part of a for loop's iterable
+	defer func(outer bool) { p.noCallBlock = outer }(p.noCallBlock)
+	p.noCallBlock = false
 
 	p.nextToken()
 
@@ -906,24 +905,6 @@ func (p *parser) assignCallee(exp ast.Expression, calleeIdent *ast.Identifier) (
 	}
 
 	return
-}
-
-// lastChainedCall follows a path such as a.f().b[0].g() to its last call.
-func lastChainedCall(exp ast.Expression) *ast.CallExpression {
-	switch t := exp.(type) {
-	case *ast.CallExpression:
-		if t.ChainCallee != nil {
-			if last := lastChainedCall(t.ChainCallee); last != nil {
-				return last
-			}
-		}
-		return t
-	case *ast.IndexExpression:
-		if t.Callee != nil {
-			return lastChainedCall(t.Callee)
-		}
-	}
-	return nil
 }
 
 // rootIdentifier returns the first identifier of a receiver path (a in a.b.c).
